@@ -322,7 +322,8 @@ def run_c17(pid, tier, seed, replay):
     """C17: the access table is regenerated from /repo by lockscan and checked inside Coq."""
     import subprocess, json
     from checklib import (sh, VERIF, COQ, GOENV, Lock)
-    from checklib import REPO as REPO_DIR
+    from checklib import REPO as REPO_DIR, point_modules_at_repo
+    point_modules_at_repo()
     t0 = time.time()
     res = build_all(need_go=False)
     problems = []
